@@ -21,13 +21,15 @@ import numpy as np
 from . import core
 from .core import Case, cD, cZ, cN, clist, cbool
 from .c09 import (_cloud, _lattice, _distinct_values, _fix_weights, _cd, _cdl, _cdll, _fmt, _same, LAYOUTS,
-                  apply_layout, first_call_args, cast_variant, params_snapshot, weight_patterns)
+                  apply_layout, first_call_args, cast_variant, params_snapshot, weight_patterns, geo_term, geometry_configs)
 
 ID = "C10"
 PROPS_FILE = "Props/C10.v"
-IMPORTS = "From Verde Require Import Lib.QList Model.BlockReduce Model.Weights."
+IMPORTS = "From Verde Require Import Lib.QList Model.BlockReduce Model.Weights Model.BlockGeo."
 SHARD = 40
-RULE = ("BlockMean.filter: clouds of 1..60 points (uniform / clustered / 2-D grids) with pairwise distinct data on a "
+RULE = ("a fixed geometry stream (c09.geometry_configs: spacings at exact half-integer ratios extent/spacing 0.5, 1.5, 2.5, 4.5 "
+        "independently in both directions, adjust=region and adjust=spacing with non-dividing scalar and (north, east) spacings, shapes; region "
+        "given and inferred; 14-point clouds holding the region corners) followed by: BlockMean.filter: clouds of 1..60 points (uniform / clustered / 2-D grids) with pairwise distinct data on a "
         "1/4 lattice in [-30,30] (1..3 components), blocks of one and of many members, no weights or one distinct "
         "non-negative weight array per component (positive sum per block; pattern chosen independently per component from "
         "{uniform 1, another uniform constant, piecewise constant, varying, varying with zeros} in both weighted modes, all 16 "
@@ -46,6 +48,7 @@ RULE = ("BlockMean.filter: clouds of 1..60 points (uniform / clustered / 2-D gri
         "get_params() of the instance is compared before and after filter(): a written constructor parameter makes holds false. A BlockMean case is non-trivial when it returns with >= 2 blocks of different "
         "population; a variance_to_weights case when some variance is above and some at or below the tolerance or NaN.")
 ASSUMPTIONS = [
+    "block labels and centres are observed from verde.block_split on the arguments the filter uses, and are themselves checked in coqc against the documented block grid computed from region / spacing / shape / adjust by the C07/C08 coordinate models (Model/BlockGeo.v: block count with round-half-to-even, adjusted spacing or adjusted region, centre coordinates within 2^-40 x scale, every point in a block that contains it up to 2^-30 x scale at shared edges); skipped when the horizontal coordinates are float32 or extent/spacing is within 2^-30 of a rounding tie without being one",
     "pandas groupby / numpy.unique as for C09 (executable specifications groupby / ukeys, re-validated on every run); labels and block centres observed from verde.block_split",
     "the ddof of the block variance is not fixed by the property; it is probed once per run (0 with pandas 3, which passes np.var through) and all cases must agree with that one value",
     "floats are read as the rationals they denote; means within relative 2^-40 of the column's largest magnitude, weights within 2^-40 absolute (2^-50 relative for variance_to_weights called directly); generated block variances are well conditioned (data on a 1/4 lattice within [-30,30]); a block variance within 2^-20 relative of the tolerance excludes the case from the weight comparison",
@@ -136,9 +139,11 @@ def make_bm_case(vd, coords, data, weights, kw, kind, expect_valid=True):
         blocks, labels = vd.block_split(tuple(coords), **split_kw)
         labels = [int(v) for v in np.ravel(labels)]
         centres = (np.ravel(blocks[0]), np.ravel(blocks[1]))
+        split_ok = True
     except Exception:
         labels = list(range(np.asarray(coords[0]).size))
         centres = (np.zeros(1), np.zeros(1))
+        split_ok = False
     if kw.get("_readonly"):
         for a in list(coords) + list(data) + (list(weights) if weights is not None else []):
             a.flags.writeable = False
@@ -152,8 +157,8 @@ def make_bm_case(vd, coords, data, weights, kw, kind, expect_valid=True):
         cobs = "None"
     else:
         cobs = "None" if expect_valid else "(Some ([], [], []))"
-    term = "c10_case %s %s %s %s %s %s %s %s (%s, %s) %s %s %s %s %s" % (
-        kw.get("_epsd", "eps40"), kw.get("_epsc", "eps40"), cN(probe_ddof(vd)), cD(default_tol(vd)), clist([cZ(v) for v in labels]), _cdll(coords), _cdll(data), cw,
+    term = "c10_case_geo %s %s %s %s %s %s %s %s %s (%s, %s) %s %s %s %s %s" % (
+        geo_term({k: v for k, v in kwc.items() if k in ("spacing", "shape", "adjust", "region")}, coords, split_ok), kw.get("_epsd", "eps40"), kw.get("_epsc", "eps40"), cN(probe_ddof(vd)), cD(default_tol(vd)), clist([cZ(v) for v in labels]), _cdll(coords), _cdll(data), cw,
         _cdl(centres[0]), _cdl(centres[1]),
         cbool(kwc.get("center_coordinates", False)), cbool(kwc.get("drop_coords", True)),
         cbool(kwc.get("uncertainty", False)), cbool(unchanged), cobs)
@@ -520,6 +525,16 @@ def generate(tier, seed):
     for coords, data, weights, kw in bm_malformed(vd):
         cases.append(make_bm_case(vd, [c.copy() for c in coords], [d.copy() for d in data],
                                   None if weights is None else [w.copy() for w in weights], kw, "bm-malformed", expect_valid=False))
+    # block grids on the decision boundaries of the documented rule (see c09.geometry_configs)
+    d = np.array([3.0, -1.5, 7.25, 0.125, 9.0, -4.0, 2.5, 11.0, -6.75, 5.5, 1.0, -2.25, 8.0, 4.75])
+    u = np.arange(14)[::-1] * 2.0 + 7.0
+    w = np.array([1.0, 2.0, 0.5, 3.0, 1.5, 4.0, 0.25, 0.75, 2.5, 1.25, 5.0, 3.5, 2.25, 0.125])
+    for k, (e, n, blk) in enumerate(geometry_configs(full=(tier != "quick"))):
+        kw = dict(blk, center_coordinates=(k % 3 != 0), drop_coords=bool(k % 2), uncertainty=(k % 3 == 1))
+        if k % 3 == 0:
+            cases.append(make_bm_case(vd, [e, n, u.copy()], [d.copy(), d * d], None, kw, "bm-geometry"))
+        else:
+            cases.append(make_bm_case(vd, [e, n, u.copy()], [d.copy(), -d], [w.copy(), w[::-1].copy()], kw, "bm-geometry"))
     n_rand = 300 if tier == "quick" else 2800
     modes = ["unweighted", "uncertainty", "wvariance", "unweighted", "uncertainty", "wvariance", "reject"]
     for i in range(n_rand):
